@@ -179,7 +179,32 @@ def make_carrier(values, carrier):
         return sc(values)
     if carrier == 'tuple_rows':
         return [tuple(v) if isinstance(v, list) else v for v in values]
+    if carrier == 'npscalar_tail':
+        # the first cell stays a plain Python value, every later cell is carried by a NumPy scalar
+        first = [True]
+        def sc(v):
+            if isinstance(v, list): return [sc(y) for y in v]
+            if first[0]:
+                first[0] = False; return v
+            if isinstance(v, bool): return v
+            if isinstance(v, int): return np.int64(v)
+            if isinstance(v, float): return np.float64(v)
+            if isinstance(v, str): return np.str_(v)
+            return v
+        return sc(values)
     raise ValueError(carrier)
+
+def carry_rowid(kw, car):
+    """the values of rowID / no_rowID conditions carried by NumPy integers (what np.where / np.argmax deliver)"""
+    if not car:
+        return kw
+    import numpy as np
+    ty = {'i64': np.int64, 'i32': np.int32, 'intp': np.intp}[car]
+    def sc(v):
+        if isinstance(v, list): return [sc(y) for y in v]
+        if isinstance(v, int) and not isinstance(v, bool): return ty(v)
+        return v
+    return [[k, sc(v) if k in ('rowID', 'no_rowID') else v] for k, v in kw]
 
 class Impl:
     def __init__(self, lib, case):
@@ -190,6 +215,10 @@ class Impl:
             self.db = lib.pdb2sql(structs[0], fix_chainID=bool(case.get('fix_chainID')))
         else:
             self.db = lib.many2sql(structs, tablenames=(case.get('tablenames') or None))
+        self.rowid_car = case.get('rowid_carrier')
+
+    def kw(self, kw):
+        return dict(carry_rowid(kw, self.rowid_car))
 
     def close(self):
         try: self.db._close()
@@ -213,26 +242,27 @@ class Impl:
         db = self.db
         k = op[0]
         try:
-            if k == 'get': return ['OK', canon_top(db.get(op[1], tablename=op[2], **dict(op[3])))]
-            if k == 'xyz': return ['OK', canon_top(db.get_xyz(tablename=op[1], **dict(op[2])))]
-            if k == 'residues': return ['OK', [[w_val(v) for v in r] for r in db.get_residues(tablename=op[1], **dict(op[2]))]]
+            if k == 'get': return ['OK', canon_top(db.get(op[1], tablename=op[2], **self.kw(op[3])))]
+            if k == 'xyz': return ['OK', canon_top(db.get_xyz(tablename=op[1], **self.kw(op[2])))]
+            if k == 'residues': return ['OK', [[w_val(v) for v in r] for r in db.get_residues(tablename=op[1], **self.kw(op[2]))]]
             if k == 'chains':
-                r = db.get_chains(tablename=op[1], **dict(op[2]))
+                r = db.get_chains(tablename=op[1], **self.kw(op[2]))
                 if not all(isinstance(c, str) for c in r): return ['ERR', 'OutOfModel']
                 return ['OK', list(r)]
-            if k == 'get_all': return ['OK', canon_top(db.get_all(op[1], **dict(op[2])))]
+            if k == 'get_all': return ['OK', canon_top(db.get_all(op[1], **self.kw(op[2])))]
             if k == 'colnames': return ['OK', list(db.get_colnames())]
             if k == 'update':
-                db.update(op[1], make_carrier(op[2], op[5] if len(op) > 5 else None), tablename=op[3], **dict(op[4])); return ['OK']
+                db.update(op[1], make_carrier(op[2], op[5] if len(op) > 5 else None), tablename=op[3], **self.kw(op[4])); return ['OK']
             if k == 'update_xyz':
-                db.update_xyz(make_carrier(op[1], op[4] if len(op) > 4 else None), tablename=op[2], **dict(op[3])); return ['OK']
+                db.update_xyz(make_carrier(op[1], op[4] if len(op) > 4 else None), tablename=op[2], **self.kw(op[3])); return ['OK']
             if k == 'update_column':
                 car = op[5] if len(op) > 5 else None
                 icar = op[6] if len(op) > 6 else None     # the index may itself be carried by a NumPy integer array / scalars
                 index = make_carrier(op[3], icar) if op[3] is not None else None
                 db.update_column(op[1], make_carrier(op[2], car), index=index, tablename=op[4]); return ['OK']
             if k == 'add_column':
-                db.add_column(op[1], coltype=op[2], value=op[3], tablename=op[4]); return ['OK']
+                val = make_carrier([op[3]], op[5])[0] if len(op) > 5 and op[5] else op[3]
+                db.add_column(op[1], coltype=op[2], value=val, tablename=op[4]); return ['OK']
             raise ValueError(k)
         except BaseException as e:
             if isinstance(e, (KeyboardInterrupt, MemoryError)): raise
